@@ -46,12 +46,14 @@ from bacpypes.basetypes import PropertyReference, PropertyValue, DateTime, TimeS
 from bacpypes.apdu import ReadAccessSpecification, WriteAccessSpecification
 import bacpypes.apdu as apdu_mod
 from bacpypes.apdu import APDU, ConfirmedRequestPDU, confirmed_request_types, unconfirmed_request_types
+from bacpypes.bvllservice import BIPForeign
 from bacpypes.npdu import NPDU, WhoIsRouterToNetwork, IAmRouterToNetwork, NetworkNumberIs
 from bacpypes.bvll import BVLPDU, OriginalUnicastNPDU, OriginalBroadcastNPDU, ForwardedNPDU
 
 # ---- the device under test -----------------------------------------------------------------------------------
 DEV_ADDR = "10.0.0.5:47808"
-CLIENTS = {1: "10.0.0.9:47808", 2: "10.0.0.77:47808"}
+BBMD = "10.0.0.200:47808"           # where the foreign-device variant of the device registers
+CLIENTS = {1: "10.0.0.9:47808", 2: "10.0.0.77:47808", 3: BBMD}
 CLIENT_ADDR = {k: Address(v) for k, v in CLIENTS.items()}
 CFG = {"tapp": 3000, "tseg": 2000, "tapdu": 3000, "retries": 3}      # ms; what the device is configured with below
 T0 = 1000.0
@@ -123,7 +125,7 @@ class CachingDeviceApplication(DeviceApplication):
         self.deviceInfoCache.iam_device_info(apdu)
 
 
-def build_device(caching=False):
+def build_device(caching=False, foreign=False):
     """the stack the samples build (BIPSimpleApplication), on a harness-owned bottom instead of a socket"""
     addr = Address(DEV_ADDR)
     ldo = LocalDeviceObject(objectName="dut", objectIdentifier=("device", 1234), maxApduLengthAccepted=1024,
@@ -138,7 +140,7 @@ def build_device(caching=False):
     app.nse = NetworkServiceElement()
     bind(app.nse, app.nsap)
     bind(app, app.asap, app.smap, app.nsap)
-    app.bip, app.annexj, app.bottom = BIPSimple(), AnnexJCodec(), Bottom()
+    app.bip, app.annexj, app.bottom = (BIPForeign(Address(BBMD), 3000) if foreign else BIPSimple()), AnnexJCodec(), Bottom()
     bind(app.bip, app.annexj, app.bottom)
     app.nsap.bind(app.bip, address=addr)
     sf = [0, 0, 0, 0]
@@ -157,6 +159,9 @@ def build_device(caching=False):
         app.add_object(o)
     app.canary = objs[1]
     vt.step_all(limit=1000)             # the device announces itself (I-Am) when it starts: not part of any record
+    if foreign:                         # ... and registers: the BBMD acknowledges (Result, code 0)
+        app.bottom.response(PDU(bytes.fromhex("810000060000"), source=Address(BBMD), destination=addr))
+        vt.step_all(limit=1000)
     del app.bottom.sent[:]
     return app
 
@@ -430,7 +435,7 @@ def run_scenario(sc):
     try:
         with watchdog(HANG_BUDGET):
             vt.reset(T0)
-            app = build_device(caching=bool(sc.get("caching")))
+            app = build_device(caching=bool(sc.get("caching")), foreign=bool(sc.get("foreign")))
             val = real4(app.canary.presentValue)
             batch = []
             for b in sc["batch"]:
@@ -701,6 +706,16 @@ def generate(tier, seed, frames):
                                           {"d": rp_frame(1, 182, sa=True).hex(), "src": 1, "role": "rp", "inv": 182, "bc": False},
                                           g(big, src=1)],
                "label": {"k": "segments", "case": "damaged I-Am filed in the device information cache, then requests of that station"}}
+    # the device as a foreign device (registered with a BBMD): whatever BVLL results, registrations and garbage arrive from the
+    # BBMD's address or from anybody, unicast requests are answered
+    for code in (0x0000, 0x0010, 0x0030, 0x0060, 0x00ff, 0xffff):
+        res = bytes([0x81, 0x00, 0x00, 0x06, code >> 8, code & 0xff])
+        for src in (3, 1):
+            yield {"foreign": True, "batch": [g(res, src=src), {"d": rp_frame(1, 183).hex(), "src": 1, "role": "rp", "inv": 183, "bc": False},
+                                              {"d": rp_frame(2, 184).hex(), "src": 2, "role": "rp", "inv": 184, "bc": False}],
+                   "label": {"k": "segments", "case": "foreign device: BVLL result %04x from %s, then requests" % (code, "the BBMD" if src == 3 else "a client")}}
+    for name in ("readProperty", "whoIs", "readPropertyMultiple-big-segmented"):
+        yield {"foreign": True, "batch": [g(frames[name][0], src=1, bc=frames[name][1])], "label": {"k": "valid", "frame": name, "foreign": True}}
     # a subscriber that never acknowledges: confirmed notifications queue up behind each other and time out in turn
     sub = frames["subscribeCOV-confirmed"][0]
     again = bytearray(sub)
